@@ -17,6 +17,9 @@
 //	          behaviour the VM shows there vs the model's context table and layout test
 //	model     CORRESPONDENCE: whole runs of programs inside the model's fragment on the Lean frame model
 //	          (callStep/retStep): outcome class, max framesIndex, max sp, dispatched instructions, result
+//	closures-tail / closures-nontail   SEARCHER (closures.go): local closures made in every iteration
+//	          (self-recursive, mutual, nested, stateful ...), kept and called after the recursion; expected
+//	          values computed in Go from the definition
 package main
 
 import (
@@ -1315,7 +1318,8 @@ func main() {
 	defer drv.Close()
 	res.DriverUsed = drv != nil
 	res.Rule = "self-recursive functions from a generator over (context of the self call: 13 tail layouts, 6 non-tail ones) × (0-4 parameters, variadic list/spread/none, locals, helper calls, int/string/array accumulators, closures capturing parameters with and without later assignment, definition at top level or inside a function) × depths; " +
-		"each paired with a mechanically derived loop; non-trivial = depth >= 2 and at least one parameter or local; distinct by program text"
+		"each paired with a mechanically derived loop; non-trivial = depth >= 2 and at least one parameter or local; distinct by program text; " +
+		"closure family (closures.go): 17 call forms × 23 kinds of local closures made in every iteration (plain, self-recursive, mutually recursive, nested, stateful, in an inner loop/block, map field) × 5 ways of keeping them × depths 3-5 / 1000-1100 / 10^5, queried after the recursion, expected values computed in Go from the definition"
 	if f.Replay != "" {
 		replay(f.Replay)
 		res.Write(f.Out)
@@ -1335,10 +1339,12 @@ func main() {
 		res.Write(f.Out)
 		return
 	}
-	closedForms(closedDepths)
-	frameBoundary()
-	lastFrame([]int{3, 1000, 50000})
-	closureFamilies(f.Seed, f.Thorough())
+	if os.Getenv("C16_ONLY") != "random" { // debugging aid: only the generator
+		closedForms(closedDepths)
+		frameBoundary()
+		lastFrame([]int{3, 1000, 50000})
+		closureFamilies(f.Seed, f.Thorough())
+	}
 
 	rng := lib.NewRNG(f.Seed)
 	n := f.Scale(150, 1500)
